@@ -36,6 +36,7 @@ func init() {
 	register("C01", true, checkC01)
 	register("C06", false, checkC06)
 	register("C12", true, checkC12)
+	register("C11", true, checkC11)
 }
 
 func main() {
